@@ -1,0 +1,81 @@
+//go:build verif
+
+package h2
+
+// Contracts for govc (contract-based deductive verification, see /verif/DESIGN.md).
+// This file contains comments only and is compiled only with the build tag `verif`.
+
+// ---------------------------------------------------------------------------------------------
+// Ghost state (C09). sentConn / sentS: flow-controlled bytes emitted to the output channel on the
+// connection / on one stream. The WINDOW_UPDATE frames written by WriteWindowUpdate are recorded as
+// a ghost sequence (wuN entries: stream id and increment).
+
+//@ ghost var sentConn int
+//@ ghost field outputBuffer.sentS int
+//@ ghost var wuN int
+//@ ghost var wuStreamAt gmap[int]int
+//@ ghost var wuIncrAt gmap[int]int
+
+// Assumed contracts on x/net/http2 (never proved).
+
+//@ extern func (*http2.Framer).WriteWindowUpdate
+//@   modifies wuN, wuStreamAt, wuIncrAt
+//@   ensures wuN == old(wuN) + 1
+//@   ensures wuStreamAt == upd(old(wuStreamAt), old(wuN), streamID)
+//@   ensures wuIncrAt == upd(old(wuIncrAt), old(wuN), incr)
+
+// RFC 7540 section 6.1/6.9.1: the flow-controlled length of a DATA frame is its whole payload (data, padding and the
+// pad-length octet), i.e. FrameHeader.Length; Data() returns the payload without padding.
+//@ extern func (*http2.DataFrame).Data
+//@   pure
+//@   ensures len(result) <= f.Length
+
+//@ iface queuedFrame.flowControlSize
+//@   pure
+//@   ensures result >= 0
+//@ iface queuedFrame.StreamID
+//@   pure
+
+// ---------------------------------------------------------------------------------------------
+// C09: exact credit.
+
+//@ func (*relay).sendWindowUpdates
+//@   serves C09
+//@   requires r != nil && f != nil && r.dest != nil && !r.destMu.held
+//@   modifies wuN, wuStreamAt, wuIncrAt, r.destMu.held
+//@   ensures[no-credit-for-empty-frame] f.Length == 0 ==> wuN == old(wuN)
+//@   ensures[credit-equals-flow-controlled-length] f.Length > 0 && result == nil ==>
+//@       wuN == old(wuN) + 2 &&
+//@       wuStreamAt[old(wuN)] == 0 && wuIncrAt[old(wuN)] == f.Length &&
+//@       wuStreamAt[old(wuN)+1] == f.StreamID && wuIncrAt[old(wuN)+1] == f.Length
+//@   ensures[lock-released] !r.destMu.held
+
+// ---------------------------------------------------------------------------------------------
+// C09: window safety, conservation and no stranding for one stream queue.
+
+//@ pred blocked(w *outputBuffer, conn int) = w.queue.gfront == nil ||
+//@      as(w.queue.gfront.Value, queuedFrame).flowControlSize() > conn ||
+//@      as(w.queue.gfront.Value, queuedFrame).flowControlSize() > w.windowSize
+
+//@ func (*outputBuffer).emitEligibleFrames
+//@   serves C09 C08
+//@   requires w != nil && connectionWindowSize != nil
+//@   modifies *connectionWindowSize, w.windowSize, w.sentS, sentConn, w.queue.gfront, w.queue.glen
+//@   ensures[conn-conservation] *connectionWindowSize + sentConn == old(*connectionWindowSize) + old(sentConn)
+//@   ensures[stream-conservation] w.windowSize + w.sentS == old(w.windowSize) + old(w.sentS)
+//@   ensures[monotone] sentConn >= old(sentConn) && w.sentS >= old(w.sentS)
+//@   ensures[no-stranding] blocked(w, *connectionWindowSize)
+//@   loop 0 invariant e == w.queue.gfront
+//@   loop 0 invariant *connectionWindowSize + sentConn == old(*connectionWindowSize) + old(sentConn)
+//@   loop 0 invariant w.windowSize + w.sentS == old(w.windowSize) + old(w.sentS)
+//@   loop 0 invariant sentConn >= old(sentConn) && w.sentS >= old(w.sentS)
+//@   loop 0 invariant *connectionWindowSize <= old(*connectionWindowSize) && (*connectionWindowSize >= 0 || *connectionWindowSize == old(*connectionWindowSize))
+//@   loop 0 invariant w.windowSize <= old(w.windowSize) && (w.windowSize >= 0 || w.windowSize == old(w.windowSize))
+//@   at send 0 before assert[never-more-than-granted] as(sent, queuedFrame).flowControlSize() <= *connectionWindowSize && as(sent, queuedFrame).flowControlSize() <= w.windowSize
+//@   at send 0 after set sentConn = sentConn + as(sent, queuedFrame).flowControlSize()
+//@   at send 0 after set w.sentS = w.sentS + as(sent, queuedFrame).flowControlSize()
+
+//@ func (*queuedDataFrame).flowControlSize
+//@   serves C09
+//@   requires f != nil
+//@   ensures result == len(f.data) && result >= 0
